@@ -20,27 +20,29 @@ P5 == [src |-> "other", cfg |-> "lit:x"]
 StepEnvs == {Env(TRUE, <<>>), Env(FALSE, <<>>), Env(FALSE, ("A" :> "1")), Env(FALSE, ("A" :> "1") @@ ("C" :> "3"))}
 PluginLists == {Plug(TRUE, <<>>), Plug(FALSE, <<>>), Plug(FALSE, <<P1>>), Plug(FALSE, <<P1, P2>>), Plug(FALSE, <<P3>>),
                 Plug(FALSE, <<P4>>), Plug(FALSE, <<P4, P5>>)}
-Matrices == {"nil", "empty", "list_ab", "adj_base", "setup_os", "adj_tomb_v", "shadow_a"}       \* setup_os: exactly one NAMED dimension
+Matrices == {"nil", "empty", "list_ab", "adj_base", "setup_os", "adj_tomb_v", "shadow_a", "dims_empty", "dims_mixed_a"}       \* setup_os: exactly one NAMED dimension
 PEnvs == {<<>>, ("A" :> "pa"), ("A" :> "pa") @@ ("B" :> "pb"), ("B" :> "") }
 Keys == {[pair |-> "K1", alg |-> "EdDSA"], [pair |-> "K1", alg |-> "ES512"], [pair |-> "K1", alg |-> "PS512"], [pair |-> "K1", alg |-> "ES256"]}
 
 Kinds == { "none",
   \* semantic: content
-  "cmd", "env_add", "env_remove", "env_change", "env_rename",
+  "cmd", "cmd_crlf", "cmd_trailing_nl", "env_add", "env_remove", "env_change", "env_rename",
   "plug_add", "plug_remove", "plug_reorder", "plug_source", "plug_config", "plug_config_deep", "plug_config_scalar", "plug_null_vs_nonempty",
-  "matrix_add", "matrix_remove", "matrix_setup_value", "matrix_adj_with", "matrix_adj_skip", "matrix_adj_extra", "matrix_dim_rename", "matrix_dim_value", "matrix_dim_anon", "matrix_adj_extra_last", "matrix_shadowed_setup",
+  "matrix_add", "matrix_remove", "matrix_setup_value", "matrix_adj_with", "matrix_adj_skip", "matrix_adj_extra", "matrix_dim_rename", "matrix_dim_value", "matrix_dim_anon", "matrix_adj_extra_last", "matrix_shadowed_setup", "matrix_empty_dim_rename", "matrix_mixed_dim_value",
   "repo", "penv_value", "penv_removed", "penv_shadowed",
   \* semantic: record and key
   "rec_alg", "fields_drop_mandatory", "fields_drop_env", "fields_add_env", "fields_add_unknown", "fields_empty",
   "value_splice", "value_bitflip", "value_attached", "value_attached_tamper", "key_other_same_alg", "key_other_alg", "keyset_without_signer", "keyset_empty", "plug_source_suffix",
   \* non-semantic
-  "env_nil_vs_empty", "plugins_nil_vs_empty", "matrix_nil_vs_empty", "plug_source_spelling", "plug_cfg_empty_vs_null",
+  "env_nil_vs_empty", "plugins_nil_vs_empty", "matrix_nil_vs_empty", "matrix_empty_adj", "plug_source_spelling", "plug_cfg_empty_vs_null",
   "venv_extra_unsigned", "venv_extra_fieldname", "fields_permuted", "fields_duplicate", "keyset_signer_plus_others" }
 SetPlugin(p, i, x) == [p EXCEPT !.l[i] = x]
 \* the presented content / env for a mutation kind; NA when the kind does not apply to this step
 NA == [na |-> TRUE]
 MutContent(o, kind) ==
     CASE kind \in {"cmd", "value_attached_tamper"} -> [o EXCEPT !.command = "echo other"]     \* (value_attached_tamper: changed content under a value that carries the original payload)
+      [] kind = "cmd_crlf" -> [o EXCEPT !.command = "echo hello\r\n"]                       \* (the signed command of this kind ends in a bare line feed: see Init)
+      [] kind = "cmd_trailing_nl" -> [o EXCEPT !.command = "echo hello\n"]
       [] kind = "env_add" -> [o EXCEPT !.env = Env(FALSE, ("Z" :> "9") @@ o.env.m)]
       [] kind = "env_remove" -> IF "A" \in DOMAIN o.env.m THEN [o EXCEPT !.env = Env(FALSE, [x \in DOMAIN o.env.m \ {"A"} |-> o.env.m[x]])] ELSE NA
       [] kind = "env_change" -> IF "A" \in DOMAIN o.env.m THEN [o EXCEPT !.env.m["A"] = "2"] ELSE NA
@@ -65,11 +67,14 @@ MutContent(o, kind) ==
       [] kind = "matrix_dim_anon" -> IF o.matrix = "setup_os" THEN [o EXCEPT !.matrix = "list_linux"] ELSE NA         \* same values, anonymous dimension
       [] kind = "matrix_adj_extra_last" -> IF o.matrix = "adj_tomb_v" THEN [o EXCEPT !.matrix = "adj_tomb_w"] ELSE NA   \* the last pair of an edited ordered map deep inside an adjustment
       [] kind = "matrix_shadowed_setup" -> IF o.matrix = "shadow_a" THEN [o EXCEPT !.matrix = "shadow_b"] ELSE NA     \* the real setup changes; a leftover key named `setup` stays the same
+      [] kind = "matrix_empty_dim_rename" -> IF o.matrix = "dims_empty" THEN [o EXCEPT !.matrix = "dims_empty2"] ELSE NA        \* dimensions without values are content too
+      [] kind = "matrix_mixed_dim_value" -> IF o.matrix = "dims_mixed_a" THEN [o EXCEPT !.matrix = "dims_mixed_b"] ELSE NA
       [] kind = "repo" -> [o EXCEPT !.repo = "https://example.com/other.git"]
       [] kind = "penv_shadowed" -> IF "B" \notin DOMAIN o.env.m THEN [o EXCEPT !.env = Env(FALSE, ("B" :> "pb") @@ o.env.m)] ELSE NA
       [] kind = "env_nil_vs_empty" -> IF DOMAIN o.env.m = {} THEN [o EXCEPT !.env = Env(~o.env.nil, <<>>)] ELSE NA
       [] kind = "plugins_nil_vs_empty" -> IF Len(o.plugins.l) = 0 THEN [o EXCEPT !.plugins = Plug(~o.plugins.nil, <<>>)] ELSE NA
       [] kind = "matrix_nil_vs_empty" -> IF o.matrix = "nil" THEN [o EXCEPT !.matrix = "empty"] ELSE IF o.matrix = "empty" THEN [o EXCEPT !.matrix = "nil"] ELSE NA
+      [] kind = "matrix_empty_adj" -> IF o.matrix = "setup_os" THEN [o EXCEPT !.matrix = "setup_os_eadj"] ELSE NA               \* an explicitly empty adjustments list
       [] kind = "plug_source_spelling" -> IF Len(o.plugins.l) > 0 /\ o.plugins.l[1].src = "short" THEN [o EXCEPT !.plugins = SetPlugin(o.plugins, 1, [src |-> "canon", cfg |-> o.plugins.l[1].cfg])] ELSE NA
       [] kind = "plug_cfg_empty_vs_null" -> IF Len(o.plugins.l) = 2 /\ o.plugins.l[2].cfg = "null" THEN [o EXCEPT !.plugins = SetPlugin(o.plugins, 2, [src |-> o.plugins.l[2].src, cfg |-> "empty"])] ELSE NA
       [] OTHER -> o
@@ -92,7 +97,7 @@ FieldOp(kind, signed) ==
       [] OTHER -> "same"
 Init ==
     \E se \in StepEnvs : \E pl \in PluginLists : \E mx \in Matrices : \E pe \in PEnvs : \E key \in Keys : \E kind \in Kinds :
-      LET o == [command |-> "echo hello", env |-> se, plugins |-> pl, matrix |-> mx, repo |-> "https://example.com/repo.git"]
+      LET o == [command |-> IF kind = "cmd_crlf" THEN "echo hello\n" ELSE "echo hello", env |-> se, plugins |-> pl, matrix |-> mx, repo |-> "https://example.com/repo.git"]
           pc == MutContent(o, kind)
           pv == MutVenv(pe, o, kind)
           signed == SignRecord(o, pe, key)
